@@ -29,6 +29,10 @@ def family(tier):
     fam = list(DP.family(tier))
     for variant, ndev in (("text", 1), ("switch-OneOfMany", 2), ("blob", 2)):
         fam.append(dict(variant=variant, vec_enabled=True, grp_enabled=True, depth=1, ndev=ndev, ngroups=2, proxy=True))
+    # a driver class that names its device at class level, instantiated with a different constructor label: the device
+    # is the one its definitions announce (the class-level name) - for addressing too
+    for variant, ndev in (("text", 2), ("number-printf", 1)):
+        fam.append(dict(variant=variant, vec_enabled=True, grp_enabled=True, depth=1, ndev=ndev, ngroups=2, ctor_name="LABEL"))
     return fam
 
 
@@ -44,7 +48,7 @@ class Sys:
 
         from mc.gen import drivers as D
 
-        self.specs = DP.deployment(**{k: v for k, v in p.items() if k != "proxy"})
+        self.specs = DP.deployment(**{k: v for k, v in p.items() if k not in ("proxy", "ctor_name")})
         hk = p["variant"].split("-")[0] if p.get("read_refresh") else None
         M_now = M.now
         self._M = M
@@ -59,7 +63,10 @@ class Sys:
             cls, defs = D.build_class(s, handlers=hf, handlers_level=0 if hf else None, base_cls=classes[bi] if bi is not None else None, base_defs=alldefs[bi] if bi is not None else None)
             classes.append(cls)
             alldefs.append(defs)
-            self.devs.append(cls(router=self.router))
+            if p.get("ctor_name") and s is self.specs[0]:
+                self.devs.append(cls(name=p["ctor_name"], router=self.router))
+            else:
+                self.devs.append(cls(router=self.router))
         self.proxy = None
         if p.get("proxy"):
             from indi.device.proxy import Proxy
@@ -231,7 +238,7 @@ def check_state(sysm, p, path, res, viol):
         for vn, tv in truths[di].items():
             if not tv["enabled"]:
                 viol("enabled-flag", "other-device", "after %r: DEV%d/%s became disabled" % (path, di, vn), {"p": p, "path": path, "req": None})
-    for device in names + [None, "NOPE"] + (["PX"] if sysm.proxy is not None else []):
+    for device in names + [None, "NOPE", "LABEL"] + (["PX"] if sysm.proxy is not None else []):
         for name in [None] + vnames + ["NOPE"] + (["CONNECTION"] if sysm.proxy is not None else []):
             rep = {"p": p, "path": path, "req": [device, name]}
             try:
